@@ -115,8 +115,16 @@ def array_convert(vals, us1, us2, d):
 LAT6 = [-1.75, 0.0, 0.5, 3.25]
 
 
+_NEG_DIMS = [(0, -1, 0), (-3, 0, 0), (-1, -1, 0), (0, -1, -1), (-3, -1, -1), (0, 0, -1)]      # every non-zero exponent negative
+
+
 def array_convert_forms(ia, ib, us1, us2, d, form):
-    """UnitArray.convert agrees element-wise with the scalar conversion for every accepted target form (values from a lattice)."""
+    """UnitArray.convert agrees element-wise with the scalar conversion for every accepted target form (values from a lattice),
+    for the given dimension and for dimensions whose exponents are all <= 0"""
+    return all(_array_convert_forms(ia, ib, us1, us2, dd, form) for dd in [tuple(d)] + _NEG_DIMS)
+
+
+def _array_convert_forms(ia, ib, us1, us2, d, form):
     vals = [LAT6[ia], LAT6[ib], 2.0]
     arr = UnitArray(list(vals), Units(SYS[us1], UnitsDimensions(*d)))
     tgt_u = Units(SYS[us2], UnitsDimensions(*d))
